@@ -240,17 +240,33 @@ Proof.
   intros H1 H2 H3. unfold exec. rewrite H1, H2. destruct (lookup f dst) as [[| |]|]; try reflexivity. congruence.
 Qed.
 
-Theorem close_writer_ok f w :
-  HashLen -> WInv f w -> ContentShape f ->
+(* the temp file after the trim holds exactly the hashed bytes *)
+Lemma trim_ok f w :
+  WInv f w ->
+  exists ft, run (trim w) f = (Ok tt, ft) /\ lookup ft (w_tmp w) = Some (File (w_data w)) /\
+             (forall l, l <> w_tmp w -> lookup ft l = lookup f l).
+Proof.
+  intros [[n Hn] [Hwr [d [Hl Hm]]]]. unfold trim.
+  destruct (w_map w) as [sz|].
+  - destruct Hm as [Hlen [Hpos [Htake Hle]]]. destruct (w_pos w <? sz) eqn:Elt.
+    + exists (update f (w_tmp w) (File (takeN (w_pos w) d))).
+      split; [apply (run_step_ok _ _ ROk); [apply exec_truncate; exact Hl|exact I]|].
+      split; [rewrite lookup_update_eq, Htake; reflexivity|]. intros l Hne. apply lookup_update_neq. congruence.
+    + apply N.ltb_ge in Elt. exists f. split; [reflexivity|]. split; [|reflexivity].
+      assert (w_pos w = lenN d) as Epos by lia. rewrite Epos, takeN_all in Htake. rewrite Hl, Htake. reflexivity.
+  - subst d. exists f. split; [reflexivity|]. split; [exact Hl|reflexivity].
+Qed.
+
+Lemma publish_ok f w :
+  (exists n, w_tmp w = InCache [bs "tmp"; n]) -> lookup f (w_tmp w) = Some (File (w_data w)) -> ContentShape f ->
   let cp := InCache (cpath (w_algo w) (w_data w)) in
-  exists f', run (close_writer hash w) f = (Ok (sri_of hash (w_algo w) (w_data w)), f') /\
+  exists f', run (publish w (cpath (w_algo w) (w_data w)) (sri_of hash (w_algo w) (w_data w))) f = (Ok (sri_of hash (w_algo w) (w_data w)), f') /\
     lookup f' cp = Some (File (w_data w)) /\ lookup f' (w_tmp w) = None /\ ContentShape f' /\
     (forall l, l <> cp -> l <> w_tmp w ->
        lookup f' l = lookup f l \/
        (lookup f l = None /\ lookup f' l = Some Dir /\ exists p, l = InCache (content_dir :: p) /\ (List.length p <= 3)%nat)).
 Proof.
-  intros HL [[n Hn] [Hwr [d [Hl Hm]]]] Hcs cp. unfold close_writer.
-  rewrite (content_path_computed _ _ HL). fold (cpath (w_algo w) (w_data w)).
+  intros [n Hn] Hl Hcs cp. unfold publish.
   set (a := w_algo w) in *. set (data := w_data w) in *.
   set (h := hexdigest a data).
   (* MkdirAll *)
@@ -269,34 +285,18 @@ Proof.
   { apply Hother. rewrite cpath_prefixes. cbv zeta. intros p [<-|[<-|[<-|[<-|[]]]]]; discriminate. }
   assert (lookup f1 (InCache (parent (cpath a data))) = Some Dir) as Hpar.
   { apply Hdirs. rewrite cpath_prefixes. cbv zeta. right. right. right. left. reflexivity. }
-  (* optional truncation: afterwards the temp file holds exactly the data *)
-  set (trunc := match w_map w with
-                | Some sz => if w_pos w <? sz then step_ok (Truncate (w_tmp w) (w_pos w)) else Ret (Ok tt)
-                | None => Ret (Ok tt) end).
-  assert (exists f2, run trunc f1 = (Ok tt, f2) /\ lookup f2 (w_tmp w) = Some (File data) /\
-                     (forall l, l <> w_tmp w -> lookup f2 l = lookup f1 l)) as [f2 [Htr [Hl2 Ho2]]].
-  { subst trunc. rewrite <- (Htmp1 (w_tmp w)) in Hl by (exists n; exact Hn).
-    destruct (w_map w) as [sz|].
-    - destruct Hm as [Hlen [Hpos [Htake Hle]]]. destruct (w_pos w <? sz) eqn:Elt.
-      + exists (update f1 (w_tmp w) (File (takeN (w_pos w) d))).
-        split; [apply (run_step_ok _ _ ROk); [apply exec_truncate; exact Hl|exact I]|].
-        split; [rewrite lookup_update_eq, Htake; reflexivity|]. intros l Hne. apply lookup_update_neq. congruence.
-      + apply N.ltb_ge in Elt. exists f1. split; [reflexivity|]. split; [|reflexivity].
-        assert (w_pos w = lenN d) as Epos by lia. rewrite Epos, takeN_all in Htake. rewrite Hl, Htake. reflexivity.
-    - subst d. exists f1. split; [reflexivity|]. split; [exact Hl|reflexivity]. }
-  rewrite run_bind, Htr.
+  assert (lookup f1 (w_tmp w) = Some (File data)) as Hl2 by (rewrite Htmp1 by (exists n; exact Hn); exact Hl).
   (* Rename *)
   assert (cp <> w_tmp w) as Hne by (rewrite Hn; intro E; symmetry in E; revert E; apply tmp_not_content).
-  assert (exec (Rename (w_tmp w) cp) f2 = (ROk, update (remove f2 (w_tmp w)) cp (File data))) as Hren.
+  assert (exec (Rename (w_tmp w) cp) f1 = (ROk, update (remove f1 (w_tmp w)) cp (File data))) as Hren.
   { apply exec_rename; [exact Hl2| |].
-    - unfold parent_ok, cp. apply is_dir_of_lookup.
-      rewrite Ho2 by (rewrite Hn; intro E; symmetry in E; revert E; apply tmp_not_content). exact Hpar.
-    - rewrite Ho2 by exact Hne. rewrite Hcp1. intros Ecp. apply (proj2 (Hcs _ _ Ecp) eq_refl). reflexivity. }
+    - unfold parent_ok, cp. apply is_dir_of_lookup. exact Hpar.
+    - rewrite Hcp1. intros Ecp. apply (proj2 (Hcs _ _ Ecp) eq_refl). reflexivity. }
   cbn [run]. fold cp. rewrite Hren. cbn [run].
-  exists (update (remove f2 (w_tmp w)) cp (File data)).
+  exists (update (remove f1 (w_tmp w)) cp (File data)).
   split; [reflexivity|]. split; [apply lookup_update_eq|]. split; [rewrite lookup_update_neq by exact Hne; apply lookup_remove_eq|].
-  assert (forall l, l <> cp -> l <> w_tmp w -> lookup (update (remove f2 (w_tmp w)) cp (File data)) l = lookup f1 l) as Hfin.
-  { intros l H1 H2. rewrite lookup_update_neq by congruence. rewrite lookup_remove_neq by congruence. apply Ho2. exact H2. }
+  assert (forall l, l <> cp -> l <> w_tmp w -> lookup (update (remove f1 (w_tmp w)) cp (File data)) l = lookup f1 l) as Hfin.
+  { intros l H1 H2. rewrite lookup_update_neq by congruence. rewrite lookup_remove_neq by congruence. reflexivity. }
   split.
   - (* ContentShape preserved *)
     intros p nd Hnd. destruct (loc_eq_dec (InCache (content_dir :: p)) cp) as [E|N].
@@ -331,6 +331,25 @@ Proof.
       * exfalso. assert (lookup f1 l = lookup f l) as Eq.
         { apply Hother. intros q Hq E. apply Hnin. subst l. apply in_map. exact Hq. }
         congruence.
+Qed.
+
+Theorem close_writer_ok f w :
+  HashLen -> WInv f w -> ContentShape f ->
+  let cp := InCache (cpath (w_algo w) (w_data w)) in
+  exists f', run (close_writer hash w) f = (Ok (sri_of hash (w_algo w) (w_data w)), f') /\
+    lookup f' cp = Some (File (w_data w)) /\ lookup f' (w_tmp w) = None /\ ContentShape f' /\
+    (forall l, l <> cp -> l <> w_tmp w ->
+       lookup f' l = lookup f l \/
+       (lookup f l = None /\ lookup f' l = Some Dir /\ exists p, l = InCache (content_dir :: p) /\ (List.length p <= 3)%nat)).
+Proof.
+  intros HL Hw Hcs cp. pose proof Hw as [[n Hn] _].
+  destruct (trim_ok f w Hw) as [ft [Htr [Hlt Hot]]].
+  assert (ContentShape ft) as Hcst.
+  { intros p nd Hnd. rewrite Hot in Hnd by (rewrite Hn; intro E; symmetry in E; revert E; apply tmp_not_content). exact (Hcs p nd Hnd). }
+  destruct (publish_ok ft w (ex_intro _ n Hn) Hlt Hcst) as [f' [Hr [H1 [H2 [H3 H4]]]]].
+  exists f'. unfold close_writer. rewrite (content_path_computed _ _ HL). rewrite run_bind, Htr. cbn [fst snd].
+  split; [exact Hr|]. split; [exact H1|]. split; [exact H2|]. split; [exact H3|].
+  intros l Hl1 Hl2. rewrite <- (Hot l Hl2). apply H4; assumption.
 Qed.
 
 End W.
